@@ -193,6 +193,27 @@ Check C06_option_order_irrelevant :
     forall t, trait_skipped (va_skip_inner va) t = trait_skipped (va_skip_inner va') t.
 Print Assumptions C06_option_order_irrelevant.
 
+(* the same for structs: the item-level skip_inner / incomparable attributes and the field-level skips, as written *)
+Theorem C06_struct_markers_as_written :
+  forall (c : cfg) (r : raw_item) (i : input) sh fs d,
+    from_input c r = Ok i -> ri_kind r = KStruct sh fs -> in_item i = IItem d ->
+    d_incomparable d = existsb (fun m => meta1_is m "incomparable") (singles (ri_attrs r)) /\
+    (forall t, trait_skipped (d_skip_inner d) t =
+               existsb (fun m => meta1_is m "skip_inner" && meta_skips c m t) (singles (ri_attrs r))) /\
+    (sh = RUnit \/ Forall2 (fun rf f => forall t, trait_skipped (f_skip f) t =
+                                         existsb (fun m => meta1_is m "skip" && meta_skips c m t) (metas_of (rf_attrs rf))) fs (d_fields d)).
+Proof. exact accepted_struct_declarative. Qed.
+
+Check C06_struct_markers_as_written :
+  forall (c : cfg) (r : raw_item) (i : input) sh fs d,
+    from_input c r = Ok i -> ri_kind r = KStruct sh fs -> in_item i = IItem d ->
+    d_incomparable d = existsb (fun m => meta1_is m "incomparable") (singles (ri_attrs r)) /\
+    (forall t, trait_skipped (d_skip_inner d) t =
+               existsb (fun m => meta1_is m "skip_inner" && meta_skips c m t) (singles (ri_attrs r))) /\
+    (sh = RUnit \/ Forall2 (fun rf f => forall t, trait_skipped (f_skip f) t =
+                                         existsb (fun m => meta1_is m "skip" && meta_skips c m t) (metas_of (rf_attrs rf))) fs (d_fields d)).
+Print Assumptions C06_struct_markers_as_written.
+
 Example C06_nonvacuous :
   exists i d, from_input cfg_default ex_enum = Ok i /\ variant_of (in_item i) (mkValue 0 [1; 2]) = Some d /\
     agree_on_visible d PartialEq (mkValue 0 [1; 2]) (mkValue 0 [1; 7]) /\
